@@ -1,7 +1,7 @@
 (* Witnesses for the known findings of C02: inputs on which two dialects give different answers (under the dialect
    semantics of Model/C01Sql.v: SQLite validated against the linked library, PostgreSQL / MySQL from documentation). *)
 Require Import PonyV.Base.PyBase PonyV.Model.C01Expr PonyV.Model.C01Sql PonyV.Model.C01Translate PonyV.Model.C01Safe
-               PonyV.Model.C01Eqb PonyV.Model.C01Query PonyV.Model.C02Render PonyV.Model.C01Aggr.
+               PonyV.Model.C01Eqb PonyV.Model.C01Query PonyV.Model.C02Render PonyV.Model.C01Aggr PonyV.Model.C01Order.
 
 Definition ga := mkattr 1 TInt true.
 Definition gb := mkattr 2 TInt true.
@@ -69,3 +69,16 @@ Theorem C02_refuted_postgres_sum_avg_of_boolean :
     sql_aggr DSqlite qa [] table = FracV 2 3 /\ sql_aggr DMysql qa [] table = FracV 2 3.
 Proof. cbv zeta. split; [reflexivity|]. eexists. repeat split; reflexivity. Qed.
 Print Assumptions C02_refuted_postgres_sum_avg_of_boolean.
+
+(* select(p.id for p in P).order_by(p.a, p.id) with a None among the keys: SQLite and MySQL sort NULL first, PostgreSQL last - the
+   translator writes plain ORDER BY "p"."a" on every dialect (no NULLS FIRST / LAST, no IS NULL key) *)
+Theorem C02_refuted_order_by_null_placement_differs :
+  let pk := mkattr 0 TInt false in
+  let r (id : Z) (av : pyv) := mkenv (fun i => match i with 0%nat => PInt id | 1%nat => av | _ => PNone end) (fun _ => PNone) in
+  let table := [r 1 (PInt 2); r 2 PNone] in let ks := [(EAttr ga, false); (EAttr pk, false)] in
+  keys_not_none ks None table = false /\
+  exists k, tr_order DSqlite ks = Some k /\ tr_order DPostgres ks = Some k /\ tr_order DMysql ks = Some k /\
+    sql_order_rows DSqlite k [] (QCol 0) table = [IntV 2; IntV 1] /\ sql_order_rows DMysql k [] (QCol 0) table = [IntV 2; IntV 1] /\
+    sql_order_rows DPostgres k [] (QCol 0) table = [IntV 1; IntV 2].
+Proof. cbv zeta. split; [reflexivity|]. eexists. repeat split; reflexivity. Qed.
+Print Assumptions C02_refuted_order_by_null_placement_differs.
